@@ -21,8 +21,11 @@ WellFormed(t) == t.sp <= t.ep /\ t.sa <= t.ea
 \* what a selector denotes
 Packets(t) == {<<t.fam, a, p, pr>> : a \in t.sa..t.ea, p \in t.sp..t.ep, pr \in (IF t.proto = 0 THEN Protos ELSE {t.proto})}
 
-\* containment as the implementation computes it (four comparisons)
+\* containment as the implementation computes it (four comparisons) - of a WELL-FORMED selector: a reversed port or address range (65535 - 0 is how the wire
+\* format writes "OPAQUE", 3.13.1) denotes no packet that could be matched, yet ToPort / ToNetwork would turn it into "any port" / a large network:
+\* it is contained in nothing
 IsSubsetImpl(a, b) ==
+  /\ WellFormed(a)
   /\ a.fam = b.fam
   /\ (b.proto # 0 => a.proto = b.proto)
   /\ a.sp >= b.sp /\ a.ep <= b.ep
@@ -32,10 +35,13 @@ IsSubsetImpl(a, b) ==
 Ranges == {<<lo, hi>> : lo \in {0, 2, 4, 5}, hi \in {1, 3, 5, 7}}
 PortRanges == {<<0, MaxPort>>, <<1, 1>>, <<2, 2>>, <<1, 2>>}
 Sels == {Ts(f, pr, p[1], p[2], r[1], r[2]) : f \in Fams, pr \in {0, 6, 17}, p \in PortRanges, r \in {x \in Ranges : x[1] <= x[2]}}
+\* ... and what a peer may send all the same: reversed port ranges (MaxPort - 0 = OPAQUE, 2 - 1) and reversed address ranges
+IllFormed == {Ts(4, pr, p[1], p[2], r[1], r[2]) : pr \in {0, 6}, p \in {<<MaxPort, 0>>, <<2, 1>>, <<1, 1>>, <<0, MaxPort>>}, r \in {<<5, 2>>, <<7, 0>>, <<2, 3>>, <<0, 7>>}} \ Sels
 
 \* containment as implemented coincides with inclusion of the denoted packet sets
 SubsetTheorem == \A a \in Sels : \A b \in Sels : IsSubsetImpl(a, b) <=> (Packets(a) \subseteq Packets(b))
 ASSUME SubsetTheorem
+ASSUME \A a \in IllFormed : ~WellFormed(a) /\ \A b \in Sels : ~IsSubsetImpl(a, b)
 
 \* ---------------------------------------------------------------------------------------------- networks and ports
 Pow2(n) == IF n = 0 THEN 1 ELSE IF n = 1 THEN 2 ELSE IF n = 2 THEN 4 ELSE 8
@@ -88,8 +94,15 @@ NarrowOk(c) == LET r == Narrow(c.policy, c.tsi, c.tsr) IN
           ~(IsSubsetImpl(c.tsi[i], c.policy[k].peer) /\ IsSubsetImpl(c.tsr[j], c.policy[k].my)) /\
           ~(IsSubsetImpl(c.policy[k].peer, c.tsi[i]) /\ IsSubsetImpl(c.policy[k].my, c.tsr[j]))
 ASSUME \A c \in NarrowCases : NarrowOk(c)
+\* what is handed to the kernel for an accepted selector (network and port) matches no packet outside the policy it was accepted under
+KernelPackets(t) == LET n == ToNetwork(t)  p == ToPort(t) IN
+                    {<<t.fam, a, q, pr>> : a \in First(n)..Last(n), q \in (IF p = 0 THEN 0..MaxPort ELSE {p}), pr \in (IF t.proto = 0 THEN Protos ELSE {t.proto})}
+PolicySels == {FromNetwork(4, n, port, pr) : n \in {x \in Nets : ValidNet(x)}, port \in 0..2, pr \in {0, 6}}
+KernelWithinPolicy == \A a \in {x \in Sels \cup IllFormed : x.fam = 4} : \A b \in PolicySels : IsSubsetImpl(a, b) => KernelPackets(a) \subseteq Packets(b)
+ASSUME KernelWithinPolicy
 
-Vectors == [subset |-> {[a |-> a, b |-> b, out |-> IsSubsetImpl(a, b)] : a \in Sels, b \in {x \in Sels : x.fam = 4 \/ x.proto = 0}},
+Vectors == [subset |-> {[a |-> a, b |-> b, out |-> IsSubsetImpl(a, b)] : a \in Sels, b \in {x \in Sels : x.fam = 4 \/ x.proto = 0}}
+                       \cup {[a |-> a, b |-> b, out |-> IsSubsetImpl(a, b)] : a \in IllFormed, b \in {x \in Sels : x.fam = 4}},
             narrow |-> {[policy |-> c.policy, tsi |-> c.tsi, tsr |-> c.tsr, out |-> Narrow(c.policy, c.tsi, c.tsr)] : c \in NarrowCases},
             convert |-> {[net |-> n, port |-> p, proto |-> pr, ts |-> FromNetwork(4, n, p, pr)] : n \in {x \in Nets : ValidNet(x)}, p \in 0..2, pr \in {0, 6}},
             tonet |-> {[ts |-> t, net |-> ToNetwork(t), port |-> ToPort(t)] : t \in {x \in Sels : x.fam = 4 /\ x.proto = 6}}]
